@@ -28,6 +28,9 @@ type wireCase struct {
 	Bytes  vf.Hex   `json:"bytes,omitempty"`  // string/buffer content, state bytes ...
 	Nums   []uint64 `json:"nums,omitempty"`   // integer fields in declaration order
 	Suffix vf.Hex   `json:"suffix,omitempty"` // trailing bytes after the encoding
+	// Prev, when set, is a value of the same type whose encoding is decoded into the receiver first:
+	// the receiver is a variable the caller may reuse, and what it held must not leak into the result.
+	Prev *wireCase `json:"previously_decoded,omitempty"`
 }
 
 type marshaler interface{ Marshal() ([]byte, error) }
@@ -217,6 +220,13 @@ func checkWire(c wireCase) []vf.Finding {
 	}
 	enc = append([]byte{}, enc...)
 	in := append(append([]byte{}, enc...), c.Suffix...)
+	if c.Prev != nil {
+		if pv, _, _, _, perr := build(*c.Prev); perr == nil {
+			if penc, perr := pv.Marshal(); perr == nil {
+				decode(append([]byte{}, penc...)) // outcome irrelevant: it only dirties the receiver
+			}
+		}
+	}
 	n, err := decode(in)
 	if err != nil {
 		kind := "own-encoding-rejected"
@@ -333,7 +343,16 @@ func wireNontrivial(c wireCase) bool {
 
 func runType(t *testing.T, typ string) {
 	s := vf.Begin(t, P, typ+"-roundtrip")
-	vf.Rapid(s, vf.N(2500, 50000), func(t *rapid.T) wireCase { return genWire(t, typ) }, checkWire, wireNontrivial)
+	vf.Rapid(s, vf.N(2500, 50000), func(t *rapid.T) wireCase {
+		c := genWire(t, typ)
+		if rapid.IntRange(0, 3).Draw(t, "reusedReceiver") == 0 {
+			p := genWire(t, typ)
+			p.Suffix = nil
+			c.Prev = &p
+			s.Class("receiver-reused")
+		}
+		return c
+	}, checkWire, wireNontrivial)
 }
 
 func TestRT_SMB_STRING_01(t *testing.T)             { runType(t, "SMB_STRING/01") }
